@@ -134,11 +134,17 @@ Qed.
 Lemma addrs_length : forall a n, length (addrs a n) = n.
 Proof. intros; unfold addrs; rewrite map_length, seq_length; reflexivity. Qed.
 
+Lemma nth_map_lt : forall {A B} (f : A -> B) l i d d', (i < length l)%nat -> nth i (map f l) d = f (nth i l d').
+Proof.
+  intros A B f l; induction l as [|x t IH]; intros i d d' H; cbn in *; [lia|].
+  destruct i; [reflexivity|]. apply IH; lia.
+Qed.
+
 Lemma addrs_nth : forall a n i, (i < n)%nat -> nth i (addrs a n) 0 = (a + Z.of_nat i) mod ADDR.
 Proof.
   intros a n i H. unfold addrs.
-  rewrite (nth_indep _ 0 ((fun i => (a + Z.of_nat i) mod ADDR) 0%nat)) by (rewrite map_length, seq_length; lia).
-  rewrite map_nth, seq_nth by lia. reflexivity.
+  rewrite (nth_map_lt _ _ i 0 0%nat) by (rewrite seq_length; lia).
+  rewrite seq_nth by lia. reflexivity.
 Qed.
 
 Lemma addrs_in : forall a n x, In x (addrs a n) <-> exists i, (i < n)%nat /\ x = (a + Z.of_nat i) mod ADDR.
@@ -151,9 +157,19 @@ Qed.
 Lemma addrs_range : forall a n x, In x (addrs a n) -> 0 <= x < ADDR.
 Proof. intros a n x H. apply addrs_in in H. destruct H as [i [_ ->]]. unfold ADDR; lia. Qed.
 
+Lemma NoDup_map_inj_in : forall {A B} (f : A -> B) l,
+  (forall x y, In x l -> In y l -> f x = f y -> x = y) -> NoDup l -> NoDup (map f l).
+Proof.
+  intros A B f l; induction l as [|x t IH]; intros Hinj Hnd; cbn; [constructor|].
+  inversion Hnd as [|? ? Hx Ht]; subst. constructor.
+  - intro I. apply in_map_iff in I. destruct I as [y [E Iy]].
+    assert (y = x) by (apply Hinj; [right; assumption|left; reflexivity|assumption]). subst. contradiction.
+  - apply IH; [|assumption]. intros; apply Hinj; try (right; assumption); assumption.
+Qed.
+
 Lemma addrs_nodup : forall a n, Z.of_nat n <= ADDR -> NoDup (addrs a n).
 Proof.
-  intros a n Hn. unfold addrs. apply FinFun.Injective_map_NoDup_in; [|apply seq_NoDup].
+  intros a n Hn. unfold addrs. apply NoDup_map_inj_in; [|apply seq_NoDup].
   intros i j Hi Hj E. rewrite in_seq in Hi, Hj. unfold ADDR in *. lia.
 Qed.
 
@@ -180,18 +196,17 @@ Lemma list_min_in : forall l d, In (list_min d l) (d :: l).
 Proof.
   induction l as [|x t IH]; intros d; cbn [list_min]; [left; reflexivity|].
   destruct (IH (Z.min d x)) as [E|I].
-  - destruct (Z.min_spec d x) as [[_ M]|[_ M]]; rewrite M in E; [left|right; left]; auto.
+  - destruct (Z.min_spec d x) as [[_ M]|[_ M]]; rewrite M in *; [left|right; left]; auto.
   - right; right; assumption.
 Qed.
 
 Lemma list_min_le : forall l d x, In x (d :: l) -> list_min d l <= x.
 Proof.
   induction l as [|y t IH]; intros d x H; cbn [list_min].
-  - destruct H as [->|[]]; lia.
-  - destruct H as [->|[->|H]].
-    + pose proof (IH (Z.min d y) (Z.min d y) (or_introl eq_refl)). lia.
-    + pose proof (IH (Z.min d y) (Z.min d y) (or_introl eq_refl)). lia.
-    + apply IH; right; assumption.
+  - destruct H as [H|[]]; lia.
+  - pose proof (IH (Z.min d y) (Z.min d y) (or_introl eq_refl)).
+    destruct H as [H1|[H1|H1]]; [lia|lia|].
+    apply IH; right; assumption.
 Qed.
 
 Lemma check_ok : forall ok m a n,
@@ -271,9 +286,8 @@ Proof.
     unfold check in C.
     destruct (existsb (fun x => x <? LOW) (addrs a n)); [discriminate|].
     destruct (filter (fun x => negb (ok m x)) (addrs a n)) as [|y t] eqn:F; [discriminate|].
-    inversion C as [E].
     pose proof (list_min_in t y) as I2. rewrite <- F in I2. apply filter_In in I2. destruct I2 as [I2 _].
-    specialize (Hl _ I2). destruct (list_min y t <? LOW) eqn:E2; [lia|reflexivity].
+    specialize (Hl _ I2). destruct (list_min y t <? LOW) eqn:E2; [lia|exact C].
 Qed.
 
 (* ---- loads and stores ---- *)
@@ -366,20 +380,20 @@ Lemma map_fresh_get : forall n ps i k,
   end.
 Proof.
   induction n as [|n IH]; intros ps i k; cbn [map_fresh].
-  - destruct (aget k ps); [reflexivity|]. destruct (i <=? k) eqn:E; cbn; [|reflexivity].
-    destruct (k <? i + Z.of_nat 0) eqn:E2; [lia|reflexivity].
+  - destruct (aget k ps); [reflexivity|].
+    destruct (i <=? k) eqn:E, (k <? i + Z.of_nat 0) eqn:E2; cbn [andb]; try reflexivity; lia.
   - rewrite IH. destruct (aget i ps) as [pi|] eqn:Ei.
     + destruct (aget k ps) as [pk|] eqn:Ek; [reflexivity|].
       destruct (Z.eq_dec k i) as [->|Hne]; [congruence|].
       destruct (i <=? k) eqn:A, (i + 1 <=? k) eqn:B, (k <? i + 1 + Z.of_nat n) eqn:C,
-               (k <? i + Z.of_nat (S n)) eqn:D; cbn; try reflexivity; lia.
+               (k <? i + Z.of_nat (S n)) eqn:D; cbn [andb]; try reflexivity; lia.
     + destruct (Z.eq_dec k i) as [->|Hne].
       * rewrite aget_aset_same, Ei.
-        destruct (i <=? i) eqn:A, (i <? i + Z.of_nat (S n)) eqn:D; cbn; try reflexivity; lia.
+        destruct (i <=? i) eqn:A, (i <? i + Z.of_nat (S n)) eqn:D; cbn [andb]; try reflexivity; lia.
       * rewrite aget_aset_other by assumption.
         destruct (aget k ps); [reflexivity|].
         destruct (i <=? k) eqn:A, (i + 1 <=? k) eqn:B, (k <? i + 1 + Z.of_nat n) eqn:C,
-                 (k <? i + Z.of_nat (S n)) eqn:D; cbn; try reflexivity; lia.
+                 (k <? i + Z.of_nat (S n)) eqn:D; cbn [andb]; try reflexivity; lia.
 Qed.
 
 Lemma sbrk_heap : forall m req v m', sbrk m req = (v, m') -> 0 <= req ->
@@ -388,10 +402,10 @@ Lemma sbrk_heap : forall m req v m', sbrk m req = (v, m') -> 0 <= req ->
 Proof.
   intros m req v m' H Hr. unfold sbrk in H.
   destruct (req =? 0) eqn:E0.
-  - inversion H; subst. repeat split; try lia. right; reflexivity.
+  - inversion H; subst. repeat split; try lia; auto.
   - destruct ((18446744073709551616 <=? m_hp m + req) || (m_hl m <? m_hp m + req)) eqn:E1.
-    + inversion H; subst. repeat split; try lia. left; reflexivity.
-    + inversion H; subst; cbn [m_hp m_hl]. repeat split; try lia. right; reflexivity.
+    + inversion H; subst. repeat split; try lia; auto.
+    + inversion H; subst; cbn [m_hp m_hl]. repeat split; try lia; auto.
 Qed.
 
 (* pages mapped before sbrk are untouched; pages it maps are read-write and all zero *)
